@@ -26,6 +26,8 @@ structure Multi where
   z : Nat := 0
   /-- (repaired code only) members changed or screen cleared since the last painted frame -/
   stale : Bool := false
+  /-- `blank_lines_painted` (repair of F36): the blank rows the last painted frame starts with (bottom alignment) -/
+  blankPainted : Nat := 0
 deriving Repr
 
 namespace Multi
@@ -64,9 +66,12 @@ def markZombie (m : Multi) (idx : Nat) : Multi :=
   if m.ordering.head? ≠ some idx ∨ (m.target.fx.fstale ∧ m.stale) then
     { m with members := m.members.modify idx (fun mem => { mem with zombie := true }) }
   else
-    let lc := m.memberRows idx + m.blankOnTop
+    -- the blank rows above the first bar: those of the frame on the screen (F36); before that repair they were derived from
+    -- the members' stored lines, which a draw skipped by the limiter changes without touching the screen
+    let lc := m.memberRows idx + (if m.target.fx.fblank then m.blankPainted else m.blankOnTop)
     let kept := if m.target.fx.fkept then min m.target.llc lc else lc
-    ({ m with z := m.z + kept, target := { m.target with llc := m.target.llc - lc } }).removeIdx idx
+    ({ m with z := m.z + kept, target := { m.target with llc := m.target.llc - lc },
+              blankPainted := if m.target.fx.fblank then 0 else m.blankPainted }).removeIdx idx
 
 /-- `MultiState::draw(force, extra_lines, now)` of the pinned commit -/
 def drawOrig (m : Multi) (force : Bool) (extra : Option (List Line)) (now : Nat) : Multi × List TOp :=
@@ -105,7 +110,7 @@ def drawFixed (m : Multi) (force : Bool) (extra : Option (List Line)) (now : Nat
   let m := reap.foldl removeIdx m
   let kept := if m.target.fx.fkept then min m.target.llc adjust else adjust
   let m := if !hasText then { m with z := m.z + kept, target := { m.target with llc := m.target.llc - adjust } } else m
-  ({ m with stale := false }, ops)
+  ({ m with stale := false, blankPainted := if m.target.fx.fblank then m.blankOnTop else m.blankPainted }, ops)
 
 def draw (m : Multi) (force : Bool) (extra : Option (List Line)) (now : Nat) : Multi × List TOp :=
   if m.target.fx.fzomb then m.drawFixed force extra now else m.drawOrig force extra now
